@@ -299,3 +299,61 @@ func fieldUses(repo, rel string, fields []string) (string, error) {
 	}
 	return "[" + strings.Join(rows, ",\n") + "]", nil
 }
+
+// lockPairs lists every mutex acquisition of a file — a statement `X.Lock()` or `X.RLock()` — with the function it is
+// in and whether the statement right after it is the matching `defer X.Unlock()` / `defer X.RUnlock()`:
+//
+//	(function, acquisition text, paired)
+func lockPairs(f *ast.File) string {
+	var rows []string
+	for _, d := range f.Decls {
+		fd, ok := d.(*ast.FuncDecl)
+		if !ok || fd.Body == nil {
+			continue
+		}
+		name := fd.Name.Name
+		if fd.Recv != nil && len(fd.Recv.List) > 0 {
+			t := strings.TrimPrefix(norm(src(fd.Recv.List[0].Type)), "*")
+			if i := strings.Index(t, "["); i >= 0 {
+				t = t[:i]
+			}
+			name = t + "." + name
+		}
+		ast.Inspect(fd.Body, func(n ast.Node) bool {
+			var list []ast.Stmt
+			switch b := n.(type) {
+			case *ast.BlockStmt:
+				list = b.List
+			case *ast.CaseClause:
+				list = b.Body
+			case *ast.CommClause:
+				list = b.Body
+			default:
+				return true
+			}
+			for i, st := range list {
+				es, ok := st.(*ast.ExprStmt)
+				if !ok {
+					continue
+				}
+				t := norm(src(es))
+				var un string
+				switch {
+				case strings.HasSuffix(t, ".RLock()"):
+					un = "defer " + strings.TrimSuffix(t, ".RLock()") + ".RUnlock()"
+				case strings.HasSuffix(t, ".Lock()"):
+					un = "defer " + strings.TrimSuffix(t, ".Lock()") + ".Unlock()"
+				default:
+					continue
+				}
+				paired := i+1 < len(list) && norm(src(list[i+1])) == un
+				rows = append(rows, fmt.Sprintf("(%s, %s, %v)", leanString(name), leanString(t), paired))
+			}
+			return true
+		})
+	}
+	if len(rows) == 0 {
+		return "[]"
+	}
+	return "[" + strings.Join(rows, ",\n") + "]"
+}
